@@ -37,6 +37,8 @@ func c09(c *Ctx) (*report.Result, error) {
 	res.RuleDoc["O9.5"] = "a claim is stamped when it is made: every registration stores (and returns) that call's own time.Now() in localShards, so the stamp an incoming announcement is compared with is never older than the claim this instance last announced (a re-registration that keeps the old stamp lets a stale announcement evict the newest claim)"
 	checkFreshTokens(c, res, "O9.5")
 	checkLeave(c, res)
+	res.RuleDoc["O9.6"] = "intra-proxy streams are pruned only when nobody claims their shard pair any more: in ReconcilePeerStreams a registered receiver/sender entry is queued for closing only on the 'key absent from the desired map' outcome - the desired maps hold one (arbitrary) peer per key, so while two peers claim a shard a test on the peer's name would prune the newest owner's stream, which is never re-created from this side"
+	checkReconcilePrune(c, res, "O9.6")
 	checkIntraSenders(c, res)
 
 	res.Explanation = "SSA of shardManagerImpl.DeliverMessagesToShardOwner / DeliverAckToShardOwner (what dominates each `return true`, reachability from the completed local hand-off to the remote forward, order of local attempt and owner lookup; the `delivered` flag is a closure-captured cell whose single store is located in the send arm of the select), of shardDelegate.NotifyMsg (control dependence of the local unregistration on Created.Before(msg.Timestamp)), of shardEventDelegate.NotifyLeave / getShardOwner / GetRemoteShardsForPeer, and of intraProxyManager.sendReplicationMessages / sendAck (nil only after a successful stream send). Decides the routing clause ('delivered, or reported undelivered; never both local and remote'); convergence of ownership under arbitrary orders, duplications and delays of gossip messages is a statement over histories and is not decided."
@@ -484,4 +486,48 @@ func instrPosOrEmpty(c *Ctx, ins ssa.Instruction) string {
 		return ""
 	}
 	return instrPos(c.Prog, ins)
+}
+
+// checkReconcilePrune: see O9.6.
+func checkReconcilePrune(c *Ctx, res *report.Result, rule string) {
+	f := resolve(c, res, rule, anchor{"proxy", "*intraProxyManager", "ReconcilePeerStreams"})
+	if f == nil {
+		return
+	}
+	n := 0
+	for _, g := range flow.AnonFuncsDeep(f) {
+		if len(flow.FindCalls(g, func(cc *ssa.CallCommon) bool { return flow.IsCallTo(cc, proxyPkg, "intraProxyManager", "closePeerShardLocked") })) == 0 {
+			continue
+		}
+		for _, call := range flow.Calls(g) {
+			bi, isB := call.Common().Value.(*ssa.Builtin)
+			if !isB || bi.Name() != "append" {
+				continue
+			}
+			n++
+			b := call.Block()
+			bad := ""
+			for _, pred := range b.Preds {
+				absent := false
+				for _, gd := range flow.NormGuards(flow.EdgeGuards(pred, b)) {
+					ex, isEx := gd.Cond.(*ssa.Extract)
+					if !isEx || ex.Index != 1 || gd.Side {
+						continue
+					}
+					if lk, isL := ex.Tuple.(*ssa.Lookup); isL && lk.CommaOk {
+						if _, isMap := lk.X.Type().Underlying().(*types.Map); isMap {
+							absent = true
+						}
+					}
+				}
+				if !absent {
+					bad = fmt.Sprintf("edge %d -> %d", pred.Index, b.Index)
+				}
+			}
+			res.Check(bad == "", rule, fmt.Sprintf("ReconcilePeerStreams: prune decision #%d is 'key absent from the desired map'", n), instrPos(c.Prog, call), "every way into the close list passes `_, ok := desired[key]; !ok`", "an entry can be queued for closing although its key is still desired ("+bad+"): with two claimants of a shard the desired map names one of them arbitrarily, the other peer's live stream entry is dropped and - being created only by the peer's own connection - never comes back, so messages for the shard are reported undelivered for good")
+		}
+	}
+	if n < 2 {
+		res.Undec(rule, "ReconcilePeerStreams: prune decisions", fnPos(c.Prog, f), fmt.Sprintf("%d found, 2 confirmed by hand (receivers, senders)", n))
+	}
 }
